@@ -283,6 +283,51 @@ def opsC15 : List (String × Handler) := [
         let evs := (← parseLEvs rest #[]).toList
         return fmtLin evs (runLin S c0 evs)
       | _ => throw "arity"),
+  -- c15.obj <lti|ltv> <periodic> T n m p t  <buffers: A B C D (T slices each) hb1 [c1] hb2 [c2]>
+  --         <overrides: fA [A] fB [B] fC [C] fD [D] f1 [c1] f2 [c2]>  x… u…
+  --   fX ∈ 0 (not overridden) | 1 (overridden with the following stack);  f1, f2 ∈ 0 | 1 (overridden, returns None) | 2 (stack)
+  --   one forward of the object at clock t through `objForward` (properties = override, else buffer) → `O x'… y…` | `R`
+  ("c15.obj", fun ts => do
+      match ts with
+      | kd :: per :: T :: n :: m :: p :: t :: rest =>
+        let kd ← kindOf kd
+        let per ← nat per; let T ← nat T; let n ← nat n; let m ← nat m; let p ← nat p; let t ← int t
+        let (bA, rest) ← takeStack T n n rest
+        let (bB, rest) ← takeStack T n m rest
+        let (bC, rest) ← takeStack T p n rest
+        let (bD, rest) ← takeStack T p m rest
+        let optVecs : Nat → List String → P (Option (List (DVec BigF)) × List String) := fun len ts =>
+          match ts with
+          | "1" :: rest => do let (v, r) ← takeVecs T len rest; pure (some v, r)
+          | "0" :: rest => pure (none, rest)
+          | _ => .error "arity"
+        let (bc1, rest) ← optVecs n rest
+        let (bc2, rest) ← optVecs p rest
+        let optStack : Nat → Nat → List String → P (Option (List (DMat BigF)) × List String) := fun r c ts =>
+          match ts with
+          | "1" :: rest => do let (v, r') ← takeStack T r c rest; pure (some v, r')
+          | "0" :: rest => pure (none, rest)
+          | _ => .error "arity"
+        let (oA, rest) ← optStack n n rest
+        let (oB, rest) ← optStack n m rest
+        let (oC, rest) ← optStack p n rest
+        let (oD, rest) ← optStack p m rest
+        let ovVecs : Nat → List String → P (Option (Option (List (DVec BigF))) × List String) := fun len ts =>
+          match ts with
+          | "0" :: rest => pure (none, rest)
+          | "1" :: rest => pure (some none, rest)
+          | "2" :: rest => do let (v, r) ← takeVecs T len rest; pure (some (some v), r)
+          | _ => .error "arity"
+        let (o1, rest) ← ovVecs n rest
+        let (o2, rest) ← ovVecs p rest
+        let (x, rest) ← takeNums n rest
+        let (u, _) ← takeNums m rest
+        let o : LinObj BigF := { kind := kd, periodic := per == 1, bufA := bA, bufB := bB, bufC := bC, bufD := bD,
+                                 bufc1 := bc1, bufc2 := bc2, ovA := oA, ovB := oB, ovC := oC, ovD := oD, ovc1 := o1, ovc2 := o2 }
+        match objForward o t x u with
+        | some (xn, y) => return "O " ++ fmt (xn ++ y)
+        | none => return "R"
+      | _ => throw "arity"),
   ("c15.nls", fun ts => do
       match ts with
       | al :: ax :: pf :: c0 :: nf :: ng :: rest =>
